@@ -21,7 +21,7 @@ ASSUMPTIONS = ["element values and liveness are derived from the scripted source
                "g++-12 -O1 build of the working tree with harness-side shims"]
 FLOORS = {"cycles_checked": {"quick": 5000, "thorough": 80000}, "empty_states": {"quick": 200, "thorough": 3000},
           "singleton_states": {"quick": 300, "thorough": 5000}, "multi_states": {"quick": 1500, "thorough": 25000},
-          "capacity_growth_cases": {"quick": 5, "thorough": 80}}
+          "capacity_growth_cases": {"quick": 5, "thorough": 80}, "more_than_64_live_cases": {"quick": 8, "thorough": 150}}
 BATCH = 20
 
 FOLDS = {"sum": lambda a, b: a + b, "add": lambda a, b: a + b, "max": max, "xor": lambda a, b: a ^ b,
@@ -41,6 +41,18 @@ def gen_case11(rng, name, k):
     c.scripts[9] = [(t, t) for t in range(start, end)]
     # values must not overflow / stay distinguishable
     sc = gen_cscript(rng, shape, start, end, big=big)
+    if big and rng.random() < 0.7:
+        # a ramp to 65..140 simultaneously live keys (the reduction tree crosses the 64- and 128-leaf capacity boundaries) early
+        # in the run, followed by the random history (adds, updates and removals on a large tree)
+        n = rng.choice([66, 70, 97, 129, 140])
+        keys = list(range(n))
+        rng.shuffle(keys)
+        ramp, per = {}, rng.choice([n, 40, 25])
+        for j, key in enumerate(keys):
+            ramp.setdefault(start + j // per, []).append(f"[{key}]={rng.randint(1, 99)}")
+        last = max(ramp)
+        tail = [e for e in sc if int(e.split("|")[0]) > last and not e.split("|")[1].startswith("c")]
+        sc = [f"{t}|" + ",".join(ops) for t, ops in sorted(ramp.items())] + tail
     if fn == "mark":
         # at most two live elements: restrict the key universe to {0, 1}
         sc2 = []
@@ -112,6 +124,7 @@ def check(case, tr):
                 f"t={t}: reduce({fn}, zero={zero}) over live values {sorted(vals)[:12]}{'...' if len(vals) > 12 else ''} reads "
                 f"{'invalid' if got is None else got}, expected {'invalid' if exp is None else exp}"))
     C["capacity_growth_cases"] = 1 if maxlive >= 17 else 0     # crossed the 8- and 16-leaf capacity boundaries
+    C["more_than_64_live_cases"] = 1 if maxlive > 64 else 0
     res.counters = C
     res.nontrivial = C["empty_states"] > 0 and C["singleton_states"] > 0 and C["multi_states"] > 0
     return res
